@@ -625,6 +625,7 @@ func main() {
 		"fixed key files: OpenSSH/bcrypt (ssh-keygen -a 2) Ed25519 and RSA, legacy PEM (AES-128-CBC) RSA; RSA moduli of 2048, 2500 and 2052 bits; one right passphrase; wrong = another string, passphrase plus a space, empty, nil",
 		"every step is age.Decrypt with the identity as the only identity, on a well-formed file built by refage; a stanza of the identity's type without arguments is outside the alphabet (C14)",
 		"histories are sequential (C20 covers sharing); the identity value is never copied",
+		"CLI stage: one `age -d -i KEY -o out FILE` run per case on a pty (fresh process, so one step per identity); the identity's public key is the one embedded in an OpenSSH-format key file, else the sibling .pub; a no-match failure is recognised by the tool's message \"no identity matched\"",
 		"thorough length-4 enumeration folds the four multi-stanza positions into one symbol whose position is fixed per (history, step); all four positions are separate symbols up to length 3",
 	}
 	r.MinEvals, r.MinDistinct = 20000, 20000
@@ -758,6 +759,11 @@ func main() {
 		r.Set("histories:"+b.c.name+":"+b.name, b.count)
 	}
 	col := newCollector()
+	if os.Getenv("C19_STAGE") == "cli" {
+		// development aid: only the CLI stage; such a run is never a verdict
+		r.Inconclusive("C19_STAGE=cli: the library stage was skipped")
+		total = 0
+	}
 	mon.Par(total, func(i int) {
 		k := sort.Search(len(offs), func(k int) bool { return offs[k] > i }) - 1
 		b := batches[k]
@@ -776,7 +782,7 @@ func main() {
 
 	// the workload must have exercised what the property talks about
 	for _, need := range []string{"prompts", "unlock_transitions", "decrypted_from_cache_without_prompt"} {
-		if r.Counter(need) < 100 {
+		if r.Counter(need) < 100 && total > 0 {
 			r.Inconclusive("counter %s = %d: the workload did not exercise the identity's state", need, r.Counter(need))
 		}
 	}
@@ -786,6 +792,13 @@ func main() {
 		r.Count("diverging_histories", int64(w.replay["histories_with_this_key"].(int)))
 		r.Violate(w.key, w.what, w.replay)
 	}
+
+	// the same property through the tool: how cmd/age builds the identity
+	ps := map[string]*party{}
+	for _, p := range []*party{encEd1, encEd2, e1, encRsa1, rsa2, r1, encRsa2500, encRsa2052, r4, x1} {
+		ps[p.name] = p
+	}
+	cliStage(r, ps)
 	r.Finish()
 }
 
